@@ -9,7 +9,7 @@ mkdir -p build evidence
 python3 - <<'PY'
 import sys; sys.path.insert(0, "tools")
 import runner
-ok, err = runner.ensure_coq_built()
+ok, err = runner.ensure_coq_built(None)
 if not ok:
     print(err); sys.exit(1)
 print("coq development built")
